@@ -13,7 +13,7 @@ pub fn run() -> i32 {
         "C17",
         "main",
         "exploration",
-        "on 3 archives (sample orders sorted / reference-first-unsorted / 4 samples with nested prefixes; samples of very different sizes): every non-empty list of <= 3 existing sample names with repeats and every prefix of every sample name, each to stdout and to -o (fresh path and a pre-existing longer file); oracle: bytes = concatenation of the single-sample extractions in request (prefix: archive) order. Failure menu (unknown sample first/middle/last, missing archive, truncated archive, neither sample nor prefix, prefix matching nothing, unknown contig / sample for getrange, ctglen, listctg) must exit non-zero. create: every subset of {--batch, --adaptive, --concatenated} x -t {1,4} x --queue-capacity {4K, 1M} x {1, 3 inputs}; oracle: exit 0 => archive exists, opens and lists every input sample. non-trivial = invocations with >= 2 requested samples or a multi-match prefix",
+        "on 4 archives (sample orders sorted / reference-first-unsorted / 4 samples with nested prefixes / 4 samples sharing a prefix in non-lexicographic order; samples of very different sizes): every non-empty list of <= 3 existing sample names with repeats and every prefix of every sample name, each to stdout and to -o (fresh path and a pre-existing longer file); oracle: bytes = concatenation of the single-sample extractions in request (prefix: archive) order. Failure menu (unknown sample first/middle/last, missing archive, truncated archive, neither sample nor prefix, prefix matching nothing, unknown contig / sample for getrange, ctglen, listctg) must exit non-zero. create: every subset of {--batch, --adaptive, --concatenated} x -t {1,4} x --queue-capacity {4K, 1M} x {1, 3 inputs}; oracle: exit 0 => archive exists, opens and lists every input sample (also with a file-size limit on the output at 8 offsets: data area, directory, length field). non-trivial = invocations with >= 2 requested samples or a multi-match prefix",
     );
     quiet_panics();
     let th = rep.thorough();
@@ -32,6 +32,8 @@ pub fn run() -> i32 {
         ("sorted", vec!["AAA#0", "AAA#1", "AB#0"]),
         ("unsorted", vec!["HG002#1", "CHM13#0", "NA128#2"]),
         ("nested", vec!["S#1", "S#10", "S#1x", "T#2"]),
+        // several samples share a prefix and were added in an order that is not the lexicographic one
+        ("unsorted_shared_prefix", vec!["iso_9#0", "ref#0", "iso_10#0", "iso_2#0"]),
     ];
     for (aname, names) in &orders {
         let adir = dir.join(aname);
@@ -291,6 +293,33 @@ pub fn run() -> i32 {
         }
         let _ = std::fs::remove_file(cdir.join(&out));
     });
+    // ---- create into an output that cannot be written completely (file-size limit inside the data area,
+    // inside the directory, inside its 8-byte length): exit 0 => the archive exists and lists every sample
+    {
+        let base_args: Vec<&str> = vec!["create", "-k", "11", "-s", "50", "-m", "15", "-v", "0", "-t", "2"];
+        let mut a0 = base_args.clone(); a0.extend(["-o", "lim_ref.agc"]); for f in &inputs3 { a0.push(f); }
+        let o = cli::run(&ragc, &a0, &cdir, &[("RAGC_VERIF_ZSTD_CAP", "3")], 60, None);
+        let len = std::fs::metadata(cdir.join("lim_ref.agc")).map(|m| m.len()).unwrap_or(0);
+        if o.ok() && len > 400 {
+            let limits: Vec<u64> = vec![0, len / 2, len - 300, len - 100, len - 9, len - 8, len - 4, len - 1];
+            par_for(limits.len(), ncpu(), |li| {
+                let out = format!("lim{li}.agc");
+                let mut a = base_args.clone(); a.extend(["-o", out.as_str()]); for f in &inputs3 { a.push(f); }
+                let o = cli::run(&ragc, &a, &cdir, &[("RAGC_VERIF_ZSTD_CAP", "3")], 60, Some(limits[li]));
+                evals.fetch_add(1, Ordering::Relaxed);
+                if o.ok() {
+                    let l = cli::run(&ragc, &["listset", &out], &cdir, &[], 60, None);
+                    let listed: Vec<String> = String::from_utf8_lossy(&l.stdout).lines().map(|s| s.to_string()).collect();
+                    if !l.ok() || listed != vec!["smp0".to_string(), "smp1".to_string(), "smp2".to_string()] {
+                        rep.violation("C17:create_exit_0_incomplete_archive:output_size_limit", "create exited 0 although the output could not be written completely; the archive does not list every input sample", json!({"archive_len_without_limit": len, "file_size_limit": limits[li], "listset_exit": l.code, "listed": listed}));
+                    }
+                }
+                let _ = std::fs::remove_file(cdir.join(&out));
+            });
+        } else {
+            rep.machinery_error("reference create for the size-limit runs failed".into());
+        }
+    }
     let _ = std::fs::remove_dir_all(&dir);
     rep.eval(evals.load(Ordering::Relaxed));
     rep.nontriv(nontriv.load(Ordering::Relaxed));
